@@ -126,8 +126,14 @@ func c16One(id int, seed int64, kind string) c16Case {
 	switch kind {
 	case "locked":
 		// make u1 locked (confirmed by its seed); attempt counter state comes from the prefix
-		extra = append(extra, SymStep{Kind: "lock", U: "u1"})
-		sa, sb = login("Login", "u1", Desc{K: "pw", U: "u1"}), login("Login", "u1", lit("Wrong-pass1!"))
+		// (every other pair: the account with a second factor enrolled - a correct password must not get as far
+		// as the second-factor page either)
+		lu := "u1"
+		if id%2 == 0 {
+			lu = "u2"
+		}
+		extra = append(extra, SymStep{Kind: "lock", U: lu})
+		sa, sb = login("Login", lu, Desc{K: "pw", U: lu}), login("Login", lu, lit("Wrong-pass1!"))
 		c.Pre = "locked"
 	case "recover":
 		sa = SymStep{Kind: "req", Req: &SymReq{Browser: b, Method: "POST", Route: "RecoverStart", Form: []KV{{pf, Desc{K: "pid", U: "u1"}}}}}
